@@ -144,6 +144,8 @@ type c03Obs struct {
 	inFlightAtRet  int
 	liveAtRet      []string
 	storedAtRet    map[int]bool
+	recovered      map[int]bool // persistent: items handed to the export function by the NEXT incarnation on the same storage
+	epilogue       bool
 	shutdownErr    string
 	finished       bool
 }
@@ -297,6 +299,32 @@ func c03Body(cf *c03Cfg, o *c03Obs) func() {
 		vs.Sleep(5 * time.Second)
 		pcancel()
 		wg.Wait()
+		if cf.Persistent && !cf.CloseFails {
+			// epilogue, not explored (default schedule): "still durably stored for the next start" means the next incarnation
+			// gets it - a payload that is still in the storage but that recovery no longer reaches is lost
+			vs.Freeze()
+			o.epilogue = true
+			o.recovered = map[int]bool{}
+			backend2 := func(_ context.Context, r request.Request) error {
+				if vs.Killed() {
+					return nil
+				}
+				for _, id := range r.(*c03Req).ids {
+					o.recovered[id] = true
+				}
+				return nil
+			}
+			be2, err := NewBaseExporter(exportertest.NewNopSettings(component.MustNewType("x")), pipeline.SignalLogs, backend2, opts...)
+			if err != nil {
+				panic(err)
+			}
+			host2 := c03Host{ext: map[component.ID]component.Component{stID: &c03Ext{cl: store}}}
+			if err := be2.Start(context.Background(), host2); err != nil {
+				panic(err)
+			}
+			vs.Sleep(3 * time.Second)
+			_ = be2.Shutdown(context.Background())
+		}
 		finished = true
 		o.finished = true
 	}
@@ -326,6 +354,9 @@ func c03Check(cf *c03Cfg, o *c03Obs) (string, string) {
 		if cf.Persistent {
 			if !o.finalOK[id] && !o.storedAtRet[id] {
 				return "lost:persistent", fmt.Sprintf("request item %d enqueued before shutdown neither finished export nor is stored; %s", id, desc())
+			}
+			if o.epilogue && !o.finalOK[id] && !o.recovered[id] {
+				return "lost:persistent:stored-but-not-recovered", fmt.Sprintf("request item %d enqueued before shutdown did not finish export; its payload is still in the storage, but the next incarnation on the same storage never handed it to the export function (recovered: %v); %s", id, keys(o.recovered), desc())
 			}
 			continue
 		}
@@ -409,6 +440,9 @@ func c03Configs(quick bool) []*c03Cfg {
 	add(c03Cfg{Persistent: true, Retry: true, Consumers: 2, Producers: [][]int{{1}, {2}}, Concurrent: false})
 	add(c03Cfg{Persistent: true, Retry: false, Consumers: 1, Producers: [][]int{{1}, {1}}, Concurrent: true})
 	add(c03Cfg{Persistent: true, Retry: true, Consumers: 2, Producers: [][]int{{1}}, Concurrent: true, CloseFails: true})
+	// two requests in flight at shutdown, every backend answer pattern: one may be interrupted in its retry wait while the
+	// other one is still being exported and finishes during the drain
+	add(c03Cfg{Persistent: true, Retry: true, Consumers: 2, Producers: [][]int{{1}, {1}}, Concurrent: false, FreeBackend: true})
 	// a request split by the batcher (3 items, min=max=2): its parts finish separately, one of them possibly interrupted by
 	// shutdown; every backend answer pattern is enumerated
 	add(c03Cfg{Persistent: true, Batch: true, Retry: true, Consumers: 1, Producers: [][]int{{3}}, Concurrent: false, FreeBackend: true, BatchMin: 2, BatchMax: 2})
